@@ -58,7 +58,38 @@ def translate():
     """Regenerate coq/generated from /repo. Returns (ok, log, failures)."""
     rc, out, err = sh([sys.executable, os.path.join(VERIF, "translator", "run.py")], 120, env={**os.environ, "BARTIQ_REPO": REPO})
     fails = [l for l in out.splitlines() if l.startswith("TRANSLATION-FAILED")]
+    global LAST_FALLBACKS
+    LAST_FALLBACKS = [l for l in out.splitlines() if l.startswith("TRANSLATION-FALLBACK")]
     return rc == 0, out + err, fails
+
+
+LAST_FALLBACKS = []
+
+
+def snapshot_diff():
+    """Names of generated files that differ from their committed snapshot."""
+    snap = os.path.join(COQ, "snapshots")
+    out = []
+    for f in sorted(os.listdir(snap)):
+        b = os.path.join(COQ, "generated", f)
+        if f.endswith(".v") and (not os.path.exists(b) or open(os.path.join(snap, f)).read() != open(b).read()):
+            out.append(f)
+    return out
+
+
+def use_snapshots():
+    """Replace every generated file that differs from its committed snapshot by the snapshot. Returns the names replaced."""
+    snap = os.path.join(COQ, "snapshots")
+    replaced = []
+    for f in sorted(os.listdir(snap)):
+        if not f.endswith(".v"):
+            continue
+        a, b = os.path.join(snap, f), os.path.join(COQ, "generated", f)
+        if not os.path.exists(b) or open(a).read() != open(b).read():
+            with open(b, "w") as out:
+                out.write(open(a).read())
+            replaced.append(f)
+    return replaced
 
 
 def coq_project_files():
